@@ -22,7 +22,7 @@ def rawValue (be : Bool) (vr : VR) (v : PValue) : Bytes :=
   | .str s => s
   | .strs l => joinBackslash l
   | _ =>
-    if vr = .DS ∨ vr = .IS then (v.numText?).getD [] else (encodePrimitive be v).1
+    if vr = .DS ∨ vr = .IS then (v.numText?).getD [] else (encodePrimitive be (owWords vr v)).1
 
 /-- padding rule of the property: odd-length values are padded with the VR-specific byte
 (NUL for UI and binary VRs, space for text VRs), even ones are not padded -/
@@ -84,7 +84,7 @@ def parseOp (ts : Syntax) (e : Enc) (op : String) (arg : Option String) : Option
   match op.splitOn ":" with
   | ["pe", tag, vr, len] =>
     match parseTag8 tag, VR.ofName? vr, len.toNat?, arg.bind parseValue with
-    | some t, some v, some l, some pv => some (e.primitiveElement ⟨t, v, l⟩ pv)
+    | some t, some v, some l, some pv => some (e.encodePrimitiveElement ⟨t, v, l⟩ pv)
     | _, _, _, _ => none
   | ["eh", tag, vr, len] =>
     match parseTag8 tag, VR.ofName? vr, len.toNat? with
